@@ -1179,4 +1179,46 @@ example : (failWith (writeAll ⟨10, none⟩ 100 [3, 7]) (some 5)).2 = .plain (.
 example : (failWith (readN (.vec 0 8) 4 NO_OFFSET [1]) (some 104)).2
     = .failed ⟨.read, NO_OFFSET, 0, false, [(1, 7)]⟩ 104 := by decide
 
+/-! ## Buffers of 4 GiB and more (known finding F22)
+
+Every provided `Buf` implementation reports its length as `len as u32`
+(`partsLen`). The futures only ever see that number, so for a buffer of
+`2^32 + k` bytes they are done after `k` bytes. The exactness theorems above
+carry the hypothesis `b.size < U32` for this reason; here is what happens at
+the excluded point. -/
+
+/-- C10's first sentence for `write_all`, for buffers of ANY length: `Ok` only
+after every byte of the buffer was handed to the kernel. -/
+def C10_write_all_any_length : Prop :=
+  ∀ (len : Nat) (ks : List Nat) (b : WBuf),
+    (writeAll ⟨partsLen len, none⟩ NO_OFFSET ks).2 = .ok b →
+    ((writeAll ⟨partsLen len, none⟩ NO_OFFSET ks).1.map (·.res)).sum = len
+
+/-- It fails: a buffer of 2^32 + 1 bytes, a kernel that takes everything it is
+offered — `Ok` after one byte (replayed on the implementation by the
+`composite whuge` operation, recorded as known finding F22). -/
+theorem C10_write_all_any_length_fails : ¬ C10_write_all_any_length := by
+  intro h
+  have := h (U32 + 1) [1] ⟨1, none⟩ (by decide)
+  revert this
+  decide
+
+/-- Below 4 GiB it holds (a corollary of `C10_write_all_exact`). -/
+theorem C10_write_all_any_length_partial (len : Nat) (hlen : len < U32) (ks : List Nat) (b : WBuf)
+    (h : (writeAll ⟨partsLen len, none⟩ NO_OFFSET ks).2 = .ok b) :
+    ((writeAll ⟨partsLen len, none⟩ NO_OFFSET ks).1.map (·.res)).sum = len := by
+  have hp : partsLen len = len := by unfold partsLen; exact Nat.mod_eq_of_lt hlen
+  rw [hp] at h ⊢
+  have hx := C10_write_all_exact ⟨len, none⟩ NO_OFFSET ks (by simpa [WBuf.size] using hlen) (Or.inl rfl)
+  have hk : (specW (rangePos 0 0 (WBuf.size ⟨len, none⟩)).length ks).2 = .ok := by
+    rw [← hx.outcome, h]; rfl
+  have := (C10_spec_write_ok _ ks hk).1
+  rw [← hx.amounts] at this
+  simpa [WBuf.size, rangePos_length] using this
+
+/-- The same truncation in the other three writing futures (closed witnesses). -/
+example : (sendAll ⟨partsLen (U32 + 3), none⟩ 0 false [3]).2 = .ok ⟨3, none⟩ := by decide
+example : (writeAllV ⟨[⟨partsLen (U32 + 0), none⟩, ⟨2, none⟩], none⟩ NO_OFFSET [2]).2
+    = .ok ⟨[⟨0, none⟩, ⟨2, none⟩], none⟩ := by decide
+
 end A10.Composite
